@@ -1,0 +1,18 @@
+//go:build verif
+
+// Contracts for the deductive verifier in /verif (icsvc). Comment-only: this file contributes no code.
+
+package provider
+
+// ---------------------------------------------------------------- C12 / C19: order of the provider's block handlers
+
+//@ func AppModule.BeginBlock
+//@ requires am.keeper != nil
+//@ ensures [all-steps-run] result == nil ==> $BeginBlockLaunchConsumers.called && $BeginBlockRemoveConsumers.called && $BeginBlockUpdateInfractionParameters.called && $BeginBlockCIS.called && $BeginBlockRD.called
+//@ ensures [fails-only-through-a-step] result != nil ==> ($BeginBlockLaunchConsumers.called && $BeginBlockLaunchConsumers.ret != nil) || ($BeginBlockRemoveConsumers.called && $BeginBlockRemoveConsumers.ret != nil) || ($BeginBlockUpdateInfractionParameters.called && $BeginBlockUpdateInfractionParameters.ret != nil)
+//@ precall BeginBlockRD [meter-first] $BeginBlockCIS.called
+
+//@ func AppModule.EndBlock
+//@ requires am.keeper != nil
+//@ ensures [heights-before-updates] $EndBlockCIS.called && $EndBlockVSU.called && result0 == $EndBlockVSU.ret0 && result1 == $EndBlockVSU.ret1
+//@ precall EndBlockVSU [cis-first] $EndBlockCIS.called
